@@ -9,7 +9,7 @@ every transition is checked for argument purity; every candidate is re-observed
 after the stream is exhausted."""
 from random import Random
 
-from .. import alphabet, refcal
+from .. import alphabet, refcal, runner
 from ..common import lib, viol, ts_of
 from ..derivation import Graph, Cap
 from ..obs import obs, fmt
@@ -89,16 +89,29 @@ def _scorers(tier, seed):
     return out
 
 
+_raised = [False]
+
+
 def _run_impl(text, ts, depth, scorer):
+    """-> (yielded observations, the same candidates observed again after the stream ended).  If the library raises in mid-stream (C01's
+    business) the candidates yielded up to then are still judged; _raised[0] tells the caller that the stream is incomplete."""
     gen = lib()[1]
     out = []
     objs = []
-    for c in gen(text, ts=ts, timeout=0, max_stack_depth=depth, scorer=scorer, latent_time=False):
-        if c is None:
-            continue
-        r = c.resolution
-        out.append((obs(r), r.mstart, r.mend, tuple(c.production), c.score))
-        objs.append(c)
+    _raised[0] = False
+    try:
+        for c in gen(text, ts=ts, timeout=0, max_stack_depth=depth, scorer=scorer, latent_time=False):
+            if c is None:
+                continue
+            r = c.resolution
+            out.append((obs(r), r.mstart, r.mend, tuple(c.production), c.score))
+            objs.append(c)
+    except Exception as e:  # noqa
+        import traceback
+
+        if not any(f.filename.startswith(runner.REPO + "/ctparse/") for f in traceback.extract_tb(e.__traceback__)):
+            raise
+        _raised[0] = True
     after = [(obs(c.resolution), c.resolution.mstart, c.resolution.mend, tuple(c.production), c.score) for c in objs]
     return out, after
 
@@ -137,11 +150,14 @@ def run_case(case):
     gen = lib()[1]
     for sname, mk in _scorers(tier, seed)[:2]:
         off = []
-        for c in gen(text, ts=ts, timeout=0, max_stack_depth=0, scorer=mk(), latent_time=False):
-            if c is not None:
-                r2 = apply_postprocessing_rules(ts, copy.deepcopy(c.resolution))
-                off.append((obs(r2), r2.mstart, r2.mend, tuple(c.production)))
-        on = [(obs(c.resolution), c.resolution.mstart, c.resolution.mend, tuple(c.production)) for c in gen(text, ts=ts, timeout=0, max_stack_depth=0, scorer=mk(), latent_time=True) if c is not None]
+        try:
+            for c in gen(text, ts=ts, timeout=0, max_stack_depth=0, scorer=mk(), latent_time=False):
+                if c is not None:
+                    r2 = apply_postprocessing_rules(ts, copy.deepcopy(c.resolution))
+                    off.append((obs(r2), r2.mstart, r2.mend, tuple(c.production)))
+            on = [(obs(c.resolution), c.resolution.mstart, c.resolution.mend, tuple(c.production)) for c in gen(text, ts=ts, timeout=0, max_stack_depth=0, scorer=mk(), latent_time=True) if c is not None]
+        except Exception:
+            continue  # the library raised in mid-stream: C01's statement, nothing to compare here
         if on != off:
             k = next((i for i in range(min(len(on), len(off))) if on[i] != off[i]), min(len(on), len(off)))
             v.append(viol({"kind": "anchoring_changes_search", "scorer": sname.rstrip("0123456789")}, "{!r} @{} scorer={}: with latent_time=True candidate {} is {} but the un-anchored stream anchored candidate by candidate gives {} ({} vs {} candidates)".format(text, ts_s, sname, k, on[k] if k < len(on) else None, off[k] if k < len(off) else None, len(on), len(off))))
@@ -150,6 +166,8 @@ def run_case(case):
     traces = 0
     for sname, mk in _scorers(tier, seed):
         yielded, after = _run_impl(text, ts, 0, mk())
+        if _raised[0]:
+            st["streams_ended_by_an_exception"] = st.get("streams_ended_by_an_exception", 0) + 1
         if yielded != after:
             k = next(i for i in range(len(yielded)) if yielded[i] != after[i])
             v.append(viol({"kind": "candidate_changed_after_yield", "scorer": sname.rstrip("0123456789")}, "{!r} @{} scorer={}: candidate {} {} became {} [{}-{}] after the stream was exhausted".format(text, ts_s, sname, k, (fmt(yielded[k][0]), yielded[k][1], yielded[k][2]), fmt(after[k][0]), after[k][1], after[k][2])))
@@ -171,7 +189,7 @@ def run_case(case):
                 break
         got_vals = {y[0] for y in yielded}
         missing = [o for o in term if o not in got_vals]
-        if missing:
+        if missing and not _raised[0]:  # a stream that ended in an exception is not judged for completeness
             v.append(
                 viol(
                     {"kind": "terminal_value_not_streamed", "scorer": sname.rstrip("0123456789")},
